@@ -134,7 +134,7 @@ def _dispatch(fn, a):  # noqa: ANN001
 def run(c: Campaign, jobs: int) -> None:
     quick = c.tier == "quick"
     n_random = 2400 if quick else 60000
-    depth = 5 if quick else 8
+    depth = 5 if quick else 6
     args = []
     shards = max(1, jobs)
     for k in range(shards):
@@ -143,7 +143,7 @@ def run(c: Campaign, jobs: int) -> None:
     from vlib.par import map_raw
 
     windows = [(name, off) for name in TINY for off in ((0, 5) if quick else (0, 4, 8))]
-    depths = {name: (depth if quick else (6 if name == "t_fork" else 8)) for name in TINY}  # t_fork's tree grows fastest (two initial stages)
+    depths = {name: (depth if quick else (5 if name == "t_fork" else 6)) for name in TINY}  # t_fork's tree grows fastest (two initial stages)
     lvl1 = map_raw(_dispatch, [(shard_exhaustive, (c.prop, c.tier, c.seed, n_, depths[n_], o_, None, False)) for n_, o_ in windows], jobs)
     lvl2_args = []
     for (n_, o_), r in zip(windows, lvl1):
